@@ -5,7 +5,8 @@ REQUIRED = ["CifModel.C02_text_protocol", "CifModel.C02_fold_line_progress", "Ci
             "CifModel.C02_flags_semis", "CifModel.C02_char_text_roundtrip",
             "CifModel.C02_analysis_facts", "CifModel.C02_write_char_text",
             "CifModel.C02_value_presented", "CifModel.C02_value_roundtrip", "CifModel.C02_unquoted_stays_unquoted",
-            "CifModel.C02_total", "CifModel.C02_total_no_tables"]
+            "CifModel.C02_total", "CifModel.C02_total_no_tables", "CifModel.C02_line_bound",
+            "CifModel.C02_bare_value", "CifModel.C02_parse_value_roundtrip"]
 GEN = ["WriterConsts", "ErrCodes"]
 FAMILIES = ["decode", "writeval", "write"]
 TRUSTED_BASE = [
@@ -24,10 +25,11 @@ ASSUMPTIONS = [
     "decode_text is modelled for a scanner without extra whitespace / end-of-line characters",
 ]
 PARTIAL = [
-    "C02_roundtrip_full (whole documents): needs the integrated parser model (group gJ); the value level is proved against the lexer "
-    "model of group gD (C02_value_roundtrip, C02_unquoted_stays_unquoted)",
-    "C02_line_bound_full: the whole-document column invariant is not proved; proved at the value level: no line that ends inside what "
-    "write_char writes is over-long, for every start column (part of C02_value_presented); whole documents: checked per case by the oracle",
+    "C02_roundtrip_doc_full (whole documents against group gJ's parser model) is stated, not proved: the composition over the container / "
+    "loop / list / table productions is missing (gJ's C01_structure is open too); proved: the value level through the parser's own value "
+    "production (C02_parse_value_roundtrip, both dialects), C02_line_bound, C02_total; kernel-evaluated whole-document instances",
+    "C02_line_bound is proved for whole documents (both versions, every walk order) in code UNITS (hence characters), under containersL: "
+    "codes/names fit a line, strings without NUL/CR, number texts of at most 2048 units (the open finding F-number-overlong)",
     "C02_total is proved for whole documents (every walk order): writable CIF -> CIF_OK, or CIF_DISALLOWED_VALUE and the CIF holds a table "
     "entry; the sharper witness (that very key cannot be quoted with room for its colon) is checked per case by the oracle only",
 ]
